@@ -3,6 +3,7 @@ package models
 import (
 	"bytes"
 	"fmt"
+	"math"
 
 	"github.com/google/uuid"
 	"github.com/vmihailenco/msgpack/v5"
@@ -52,4 +53,52 @@ func (p *Point) GetField(name string) (any, error) {
 		return nil, nil
 	}
 	return queryResult[0], nil
+}
+
+// Points come back to clients as JSON, which has no representation for NaN and
+// the infinities. A binary (msgpack) client can send them, once stored every
+// request that returns the field fails while encoding the response. Returns an
+// error naming the first such number in the point.
+func (p PointAsMap) CheckJSONCompatible() error {
+	return checkFiniteNumbers("", map[string]any(p))
+}
+
+func checkFiniteNumbers(path string, v any) error {
+	switch x := v.(type) {
+	case float64:
+		if math.IsNaN(x) || math.IsInf(x, 0) {
+			return fmt.Errorf("property %s is not a finite number", path)
+		}
+	case float32:
+		return checkFiniteNumbers(path, float64(x))
+	case []float32:
+		for i, f := range x {
+			if err := checkFiniteNumbers(fmt.Sprintf("%s[%d]", path, i), float64(f)); err != nil {
+				return err
+			}
+		}
+	case []float64:
+		for i, f := range x {
+			if err := checkFiniteNumbers(fmt.Sprintf("%s[%d]", path, i), f); err != nil {
+				return err
+			}
+		}
+	case []any:
+		for i, e := range x {
+			if err := checkFiniteNumbers(fmt.Sprintf("%s[%d]", path, i), e); err != nil {
+				return err
+			}
+		}
+	case map[string]any:
+		for k, e := range x {
+			sub := k
+			if path != "" {
+				sub = path + "." + k
+			}
+			if err := checkFiniteNumbers(sub, e); err != nil {
+				return err
+			}
+		}
+	}
+	return nil
 }
